@@ -10,7 +10,37 @@ def spawn_names(names):
 
 def panic_call_names(names):
     return [n for n in names if n.split('::')[-1] in ('unwrap', 'expect', 'unwrap_err', 'expect_err') or n.startswith('core::panicking') or n.startswith('std::panicking')
-            or n.startswith('std::rt::begin_panic') or n.startswith('std::rt::panic') or 'Index::index' in n]
+            or n.startswith('std::rt::begin_panic') or n.startswith('std::rt::panic') or 'Index::index' in n] + std_panicking(names)
+
+
+# std functions that are documented to panic for some argument values (beyond unwrap / expect / indexing, which have their
+# own rules).  Matched on the generic-stripped callee name.
+_STD_PANICKING_EXACT = {
+    'std::string::String::truncate', 'std::string::String::split_off', 'std::string::String::insert', 'std::string::String::insert_str',
+    'std::string::String::remove', 'std::string::String::drain', 'std::string::String::replace_range',
+    'core::str::split_at', 'core::str::split_at_mut', 'std::str::split_at',
+    'std::vec::Vec::remove', 'std::vec::Vec::swap_remove', 'std::vec::Vec::insert', 'std::vec::Vec::split_off', 'std::vec::Vec::drain',
+    'std::vec::Vec::truncate_front', 'std::collections::VecDeque::split_off', 'std::collections::VecDeque::insert', 'std::collections::VecDeque::drain',
+    'core::slice::copy_from_slice', 'core::slice::clone_from_slice', 'core::slice::split_at', 'core::slice::swap', 'core::slice::chunks', 'core::slice::windows',
+    'std::time::Duration::new', 'std::time::Duration::from_secs_f32', 'std::time::Duration::from_secs_f64', 'std::time::Duration::mul_f32', 'std::time::Duration::mul_f64',
+    'std::time::Duration::div_f32', 'std::time::Duration::div_f64', 'std::time::Instant::duration_since', 'std::time::SystemTime::duration_since',
+    'std::cell::RefCell::borrow', 'std::cell::RefCell::borrow_mut', 'std::sync::Arc::get_mut_unchecked', 'std::char::from_digit',
+    'core::num::abs', 'core::num::pow', 'core::num::div_euclid', 'core::num::rem_euclid', 'core::num::next_power_of_two', 'core::num::ilog2', 'core::num::ilog10', 'core::num::ilog',
+}
+_STD_PANICKING_OPS = ('std::time::Instant', 'std::time::Duration', 'std::time::SystemTime')
+
+
+def std_panicking(names):
+    """callee names among `names` that can panic by contract: the table above and the arithmetic operator impls of the time types
+    (`Instant + Duration`, `Duration * n`, .. panic on overflow; the checked_* / saturating_* forms do not)"""
+    out = []
+    for n in names:
+        if n in _STD_PANICKING_EXACT:
+            out.append(n)
+        elif n.startswith('<') and ' as std::ops::' in n and n.split(' as ')[0].lstrip('<') in _STD_PANICKING_OPS and \
+                n.split('::')[-1] in ('add', 'sub', 'mul', 'div', 'add_assign', 'sub_assign', 'mul_assign', 'div_assign'):
+            out.append(n)
+    return out
 
 
 def is_panic_assert(term):
